@@ -109,9 +109,20 @@ def make_values(rng, origin):
     return v
 
 
-def build(rng, origin, present, values, container, binned):
+OUTER_NAMES = ('source_position', 'incident_beam', 'L1', 'incident_energy')
+
+
+def build(rng, origin, present, values, container, binned, outer=None):
     def var(name):
         x = values[name]
+        if outer and name in OUTER_NAMES:
+            # several source-side settings along their own dimension (e.g. one per run)
+            x = np.asarray(x)
+            unit = {'incident_energy': 'meV', 'source_position': 'm'}.get(name) or UNIT[name]
+            stack = np.stack([x, x * 1.01])
+            if x.ndim == 1:
+                return sc.vectors(dims=[outer], values=stack, unit=unit)
+            return sc.array(dims=[outer], values=stack, unit=unit)
         if name in ('ub_matrix',):
             return sc.spatial.linear_transform(value=x, unit='1/angstrom')
         if name == 'sample_rotation':
@@ -194,13 +205,24 @@ def run_config(rng, ctx, scn, CV, watch, index, tracer):
     container = 'dataset' if index % 3 == 0 else 'dataarray'
     binned = index % 4 == 1
     values = make_values(rng, origin)
-    data = build(rng, origin, present, values, container, binned)
+    # one configuration in nine: source-side coordinates vary along a dimension of their own, named so that
+    # it sorts before or after 'pixel'
+    outer = ['arun', 'run'][index % 2] if index % 9 == 4 and not binned else None
+    data = build(rng, origin, present, values, container, binned, outer=outer)
     verdict, nodes, mode = G.decide(origin, target, scatter, [*present, *AUX, origin])
     case = {'origin': origin, 'target': target, 'scatter': scatter, 'present': present, 'container': container,
-            'binned': binned, 'model': verdict, 'model_detail': nodes, 'index': index}
+            'binned': binned, 'model': verdict, 'model_detail': nodes, 'index': index, 'outer_dim': outer}
     watch.kernels, watch.graph, watch.k_depth = [], None, 0
+    # the flag is a truth value: callers also pass numpy booleans (np.any(...)) or 0/1
+    flag_form = index % 7
+    scatter_arg = scatter
+    if flag_form == 1:
+        scatter_arg = np.bool_(scatter)
+    elif flag_form == 2:
+        scatter_arg = int(scatter)
+    case['scatter_flag_type'] = type(scatter_arg).__name__
     try:
-        res = scn.convert(data, origin, target, scatter=scatter)
+        res = scn.convert(data, origin, target, scatter=scatter_arg)
         outcome = 'ok'
     except RuntimeError as e:
         res, outcome, err = None, 'refuse', e
@@ -222,7 +244,7 @@ def run_config(rng, ctx, scn, CV, watch, index, tracer):
         return
     # ---- the reported graph is the one that is used
     try:
-        reported = CV.deduce_conversion_graph(data, origin, target, scatter)
+        reported = CV.deduce_conversion_graph(data, origin, target, scatter_arg)
         rep_ok = True
     except RuntimeError:
         reported, rep_ok = None, False
@@ -260,6 +282,9 @@ def run_config(rng, ctx, scn, CV, watch, index, tracer):
                       f'{want_k}', case, mode=mode)
         return
     # ---- value
+    if outer:
+        ctx.event('outer_layout')
+        return
     try:
         mv = G.evaluate(nodes, model_values({k: values[k] for k in [*present, *AUX, origin]}), table, mode)
         want = mv[target]
@@ -319,7 +344,7 @@ def plan(tier, seed):
 
 
 def requirements(tier):
-    return {'events': {'convert': 5000, 'value': 1000, 'graph_identity': 1000},
+    return {'events': {'convert': 5000, 'value': 1000, 'graph_identity': 1000, 'outer_layout': 100},
             'counters': {'model:ok': 1000, 'model:refuse': 1000}}
 
 
